@@ -381,10 +381,12 @@ def check_schedules(case):
             watched = [ex._watch(a) for _, a in fresh]
             P.BARRIER.log[:] = []
             try:
-                results, info = sched.run([(lambda fn=fn, args=args: fn(*args)) for fn, args in fresh], quanta)
+                results, info = sched.run([(lambda fn=fn, args=args: fn(*args)) for fn, args in fresh], quanta, timeout=3.0)
             except sched.Stuck:
-                core.metric("schedules abandoned", 1)
-                continue
+                # a pre-empted thread held something the next one needed (a lock of the library's own, say): this schedule cannot
+                # happen; the case's remaining plans are left out rather than waited for
+                core.metric("cases with an unrealisable schedule", 1)
+                break
             nsw += info["switches"]
             plan = {"order": order, "quanta": [q if q < sched.INF else "rest" for q in quanta], "kind": label}
             for pos, i in enumerate(order):
